@@ -157,7 +157,7 @@ pub fn producible(sc: &Scenario) -> Vec<String> {
         v.push("OutputFailure".to_string());
     }
     for (i, name) in crate::engine::PERM_NAMES.iter().enumerate() {
-        let on = sc.perms[i].unwrap_or(crate::engine::perm_default(i));
+        let on = sc.effective_perms()[i].unwrap_or(crate::engine::perm_default(i));
         if !on {
             v.push(format!("PermissionError(\"{name}\")"));
         }
